@@ -215,6 +215,17 @@ class Ctx:
     def quick(self):
         return self.tier == 'quick'
 
+    def over_budget(self):
+        """thorough runs stop *sampling* (never comparing) when the wall-clock budget is used up (VERIF_BUDGET_S, default
+        1500 s); the evidence records how much was skipped"""
+        if self.quick:
+            return False
+        budget = float(os.environ.get('VERIF_BUDGET_S', '1500'))
+        if time.time() - self.t0 > budget:
+            self.dist['skipped-by-time-budget'] = self.dist.get('skipped-by-time-budget', 0) + 1
+            return True
+        return False
+
     # ---- counting -------------------------------------------------------------------------
     def case(self, desc, nontrivial=True, tag=None, sample=True):
         self.evaluations += 1
